@@ -238,7 +238,39 @@ func run(w []string) (res string, ok bool) {
 	return res + " | " + strings.Join(trace, " "), true
 }
 
+// probe: "Empty is the given element" at element types whose zero-ness or identity can be lost by a copy: a nil slice, a
+// nil map, an empty non-nil slice, a pointer (the very pointer), an interface holding a typed nil
+func probe() {
+	type box struct{ v int }
+	say := func(name string, ok bool) {
+		if ok {
+			fmt.Println(name + " ok")
+		} else {
+			fmt.Println(name + " DIFF")
+		}
+	}
+	cat := func(a, b []int) []int { return append(append([]int{}, a...), b...) }
+	say("nil-slice FromOp", monoid.FromOp[[]int](nil, cat).Empty() == nil)
+	say("nil-slice From", monoid.From[[]int](nil, semigroup.From[[]int](cat)).Empty() == nil)
+	e := monoid.FromOp[[]int]([]int{}, cat).Empty()
+	say("empty-slice FromOp", e != nil && len(e) == 0)
+	merge := func(a, b map[string]int) map[string]int { return a }
+	say("nil-map FromOp", monoid.FromOp[map[string]int](nil, merge).Empty() == nil)
+	p := &box{7}
+	say("pointer FromOp", monoid.FromOp[*box](p, func(a, b *box) *box { return a }).Empty() == p)
+	var tn error = (*os.PathError)(nil)
+	got := monoid.FromOp[error](tn, func(a, b error) error { return a }).Empty()
+	say("typed-nil-interface FromOp", got == tn && got != nil)
+	sl := []int{1, 2, 3}
+	es := monoid.FromOp[[]int](sl, cat).Empty()
+	say("slice-identity FromOp", len(es) == 3 && &es[0] == &sl[0])
+}
+
 func main() {
+	if len(os.Args) > 1 && os.Args[1] == "probe" {
+		probe()
+		return
+	}
 	in := bufio.NewScanner(os.Stdin)
 	in.Buffer(make([]byte, 1<<20), 1<<20)
 	out := bufio.NewWriter(os.Stdout)
